@@ -35,6 +35,48 @@ def simulate(num, depth, seed, timeout=1200, cfg="PipeStepReplay"):
     return r, edges
 
 
+def simulate_many(num, depth, seed, cfg="PipeStepReplay", procs=6, timeout=1200):
+    """Several simulators side by side (one worker each: a simulator's output must stay in order)."""
+    import concurrent.futures
+    per = max(1, num // procs)
+
+    def one(i):
+        r = vf.tlc("PipeStepReplay", cfg=cfg, timeout=timeout, workers=1, tag="PipeStepReplay-%s-%d" % (cfg, i),
+                   extra=["-simulate", "num=%d" % per, "-depth", str(depth), "-seed", str(seed * 1000 + i)])
+        if getattr(r, "fatal", None):
+            raise vf.MachineryError("PipeStepReplay simulation failed\n" + r.out[-2000:])
+        edges = []
+        for line in r.out.splitlines():
+            if line.startswith('<<"E", '):
+                a = json.loads("[" + line[2:-2] + "]")
+                edges.append((a[1], json.loads(a[2]), a[3]))
+        return edges
+    with concurrent.futures.ThreadPoolExecutor(procs) as ex:
+        return list(ex.map(one, range(procs)))
+
+
+def merge(parts):
+    """paths_of per simulator, then one state table."""
+    states, ids, paths = [], {}, []
+    init = 0
+    for edges in parts:
+        st, ini, ps = paths_of(edges)
+        remap = {}
+        for i, x in enumerate(st):
+            k = json.dumps(x, sort_keys=True)
+            if k not in ids:
+                ids[k] = len(states)
+                states.append(x)
+            remap[i] = ids[k]
+        init = remap.get(ini, init)
+        for p in ps:
+            for step in p:
+                step["s"] = remap[step["s"]]
+                step["alts"] = [remap[a] for a in step["alts"]]
+            paths.append(p)
+    return states, init, paths
+
+
 def paths_of(edges):
     states, ids = [], {}
 
